@@ -152,6 +152,23 @@ pub fn program(c: usize, prog: &str) -> Script {
             s = s.send_z(sync(be("a", &t(2))), "B(a) E S");
             s = s.send_z(sync(be("b", &t(3))), "B(b) E S");
         }
+        // (see reload_scenario: actor 2 reloads once client 0 has prepared and used a)
+        "reload-a" => {
+            s = s.send_z(sync(p("a", &t1, &[])), "P(a,T1) S");
+            s = s.wait(crate::world::Cond::ActorsDone(vec![1, 2]));
+            s = s.send_z(sync(be("a", &t(1))), "B(a) E S");
+            let mut b = p("b", &t2, &[]);
+            b.extend(be("b", &t(2)));
+            s = s.send_z(sync(b), "P(b,T2) B E S");
+            s = s.send_z(sync(be("a", &t(3))), "B(a) E S");
+        }
+        "reload-b" => {
+            s = s.wait(crate::world::Cond::ActorsDone(vec![2]));
+            let mut b = p("a", &t2, &[]);
+            b.extend(be("a", &t(1)));
+            s = s.send_z(sync(b), "P(a,T2) B E S");
+            s = s.send_z(sync(be("a", &t(2))), "B(a) E S");
+        }
         "error-parse-twice" => {
             // the same rejected text again: it was never prepared, so it must be sent (and rejected) again,
             // under the same name and under another one
@@ -320,6 +337,22 @@ pub fn scenario(cache: usize, pool_size: u32, progs: &[&str]) -> Scenario {
     }
 }
 
+/// A RELOAD that rebuilds the pool (its idle_timeout changes) lands between the uses of a name: client 0
+/// prepared a=T1 before it and binds it afterwards, client 1 prepares the same name with another text after
+/// the reload. The new pool starts with a statement cache of its own.
+pub fn reload_scenario(cache: usize, pool_size: u32) -> Scenario {
+    let mut sc = scenario(cache, pool_size, &["reload-a", "reload-b"]);
+    sc.alt_tomls = vec![sc.toml.replacen("prepared_statements_cache_size", "idle_timeout = 40000\nprepared_statements_cache_size", 1)];
+    assert!(sc.alt_tomls[0].contains("idle_timeout = 40000"));
+    let at = sc.actors[0].steps.iter().position(|x| matches!(x, crate::world::Step::Wait(crate::world::Cond::ActorsDone(_)))).unwrap();
+    sc.actors.push(crate::cfg::env(
+        "reload",
+        vec![crate::world::Step::Wait(crate::world::Cond::ActorAt(0, at)), crate::world::Step::WriteConfig(0), crate::world::Step::Admin("RELOAD".into())],
+    ));
+    sc.name = format!("{} reload=pool-rebuilt", sc.name);
+    sc
+}
+
 pub fn oracle(sc: &Scenario, out: &Outcome) -> Vec<Violation> {
     let log = &out.log;
     let mut vs = Vec::new();
@@ -461,6 +494,11 @@ pub fn build(tier: &str) -> SimCheck {
             }
         }
     }
+    for cache in [2usize, 8] {
+        for pool_size in [1u32, 2] {
+            scenarios.push(reload_scenario(cache, pool_size));
+        }
+    }
     // generated single-client programs: every batch of <= 2 (thorough 3) items after each prefix, with a probe
     let gens = gen_programs(if thorough { 3 } else { 2 });
     for cache in [1usize, 2, 8] {
@@ -473,7 +511,7 @@ pub fn build(tier: &str) -> SimCheck {
         oracle: Box::new(oracle),
         bound: if thorough { 3 } else { 2 },
         limits: Limits { max_wall_s: if thorough { 1500.0 } else { 50.0 }, ..Default::default() },
-        rule: "generated: every batch of <= 2 (thorough 3) items over {P(a,T1), P(a,T2), P(b,T2), B(a)E, B(b)E, D(S,a), C(S,a), C(S,b), unnamed P B E, C(P,''), B E on a portal named like its statement, C(P,a)} after the prefixes {none, a prepared, a and b prepared}, followed by a probe Bind of a or b, kept when valid on a direct connection, x cache size {1,2,8}; hand-written: scenario = server/pool statement cache size {1,2,8} x pool_size {1,2} x one or two client programs over shared names a/b (prepare then bind across transactions, two names, Describe, Close + re-Parse with new text, two Binds in one batch, LRU order, structurally colliding (text, n, types) encodings, same text with other types, Parse+Bind pairs in one batch, case variants, rejected Parse, the same rejected text parsed again under the same and another name, a name bound, closed and re-prepared with another known text in one batch, a simple-protocol PREPARE (which makes the pooler DEALLOCATE ALL at check-in) between uses of a protocol-level statement); all schedules with <= bound deviations; oracle = direct-connection reference per client".into(),
+        rule: "generated: every batch of <= 2 (thorough 3) items over {P(a,T1), P(a,T2), P(b,T2), B(a)E, B(b)E, D(S,a), C(S,a), C(S,b), unnamed P B E, C(P,''), B E on a portal named like its statement, C(P,a)} after the prefixes {none, a prepared, a and b prepared}, followed by a probe Bind of a or b, kept when valid on a direct connection, x cache size {1,2,8}; hand-written: scenario = server/pool statement cache size {1,2,8} x pool_size {1,2} x one or two client programs over shared names a/b (prepare then bind across transactions, two names, Describe, Close + re-Parse with new text, two Binds in one batch, LRU order, structurally colliding (text, n, types) encodings, same text with other types, Parse+Bind pairs in one batch, case variants, rejected Parse, the same rejected text parsed again under the same and another name, a name bound, closed and re-prepared with another known text in one batch, a simple-protocol PREPARE (which makes the pooler DEALLOCATE ALL at check-in) between uses of a protocol-level statement); a RELOAD that rebuilds the pool (fresh statement cache) between the uses of a name by two clients; all schedules with <= bound deviations; oracle = direct-connection reference per client".into(),
         assumptions: vec!["the reference backend without a pooler defines the direct-connection behaviour; synthesised ParseComplete/CloseComplete may be reordered within a reply".into()],
     }
 }
